@@ -94,6 +94,9 @@ class Tr:
             raise Untranslatable("call of %s in a numeric expression" % name)
         if k == "CXXMemberCallExpr":
             callee = kids(n)[0]
+            if callee.get("kind") == "MemberExpr" and len(kids(n)) == 1 and strip(kids(callee)[0]).get("kind") == "CXXThisExpr" \
+                    and callee.get("name") in getattr(self, "inline", {}):
+                return self.inline[callee.get("name")]      # a call of an accessor of the same class, already translated
             if callee.get("kind") == "MemberExpr" and callee.get("name") == "size" and len(kids(n)) == 1:
                 obj = self.member(kids(callee)[0])
                 if obj in self.cfg["strs"]:
@@ -512,6 +515,8 @@ class HTr:
             m = self.this_member(lhs)
             if m in ("valid_", "fail_", "cr_"):
                 return "(HSet %d%%nat %s)" % (self.num(m), self.hexp(rhs))
+            if m == "length_" and strip(rhs).get("kind") == "IntegerLiteral":
+                return "(HSetNum %d%%nat %d)" % (self.num(m), int(strip(rhs)["value"]))
             raise Untranslatable("assignment to " + str(m))
         if k == "CompoundAssignOperator" and n.get("opcode") == "+=":
             lhs, rhs = kids(n)
@@ -528,6 +533,8 @@ class HTr:
             if fc and fc[0] == "clear" and not fc[1]:
                 return "HFieldClear"
             callee = kids(n)[0]
+            if callee.get("kind") == "MemberExpr" and callee.get("name") == "clear" and len(kids(n)) == 1 and self.this_member(kids(callee)[0]) == "fields_":
+                return "HFieldsClear"
             if callee.get("kind") == "MemberExpr" and callee.get("name") == "add" and strip(kids(callee)[0]).get("kind") == "CXXThisExpr":
                 args = kids(n)[1:]
                 if len(args) == 2:
@@ -560,9 +567,11 @@ def translate_headers():
             if n.get("kind") == "ClassTemplateSpecializationDecl" and n.get("name") == "message_headers":
                 pr = [m for m in walk(n) if m.get("kind") == "CXXMethodDecl" and m.get("name") == "parse" and any(c.get("kind") == "CompoundStmt" for c in kids(m))
                       and any(c.get("kind") == "TemplateArgument" for c in (m.get("inner") or []))]
-                if pr:
-                    return HTr().hstmt([c for c in kids(pr[0]) if c.get("kind") == "CompoundStmt"][0])
-    raise Untranslatable("message_headers::parse: no instantiated body found")
+                cl = [m for m in kids(n) if m.get("kind") == "CXXMethodDecl" and m.get("name") == "clear" and any(c.get("kind") == "CompoundStmt" for c in kids(m))]
+                if pr and cl:
+                    return (HTr().hstmt([c for c in kids(pr[0]) if c.get("kind") == "CompoundStmt"][0]),
+                            HTr().hstmt([c for c in kids(cl[0]) if c.get("kind") == "CompoundStmt"][0]))
+    raise Untranslatable("message_headers::parse / clear: no instantiated body found")
 
 
 
@@ -633,6 +642,11 @@ class MTr:
             return "(MIf %s %s %s)" % (self.mexp(ks[0]), self.mstmt(ks[1]), self.mstmt(els) if els is not None else "MSkip")
         if k == "ReturnStmt":
             return "(MReturn %s)" % self.mexp(kids(n)[0])
+        if k == "CXXMemberCallExpr":
+            c = self.call(n)
+            if c and c[1] == "clear" and not c[2]:
+                return "MLineClear" if c[0] == "line" else "MHdrClear"
+            raise Untranslatable("member call statement in a message's function")
         if k == "BinaryOperator" and n.get("opcode") == "=":
             lhs, rhs = kids(n)
             l = strip(lhs)
@@ -660,9 +674,11 @@ def translate_message(header, cls, inst):
             if n.get("kind") == "ClassTemplateSpecializationDecl" and n.get("name") == cls:
                 pr = [m for m in walk(n) if m.get("kind") == "CXXMethodDecl" and m.get("name") == "parse" and any(c.get("kind") == "CompoundStmt" for c in kids(m))
                       and any(c.get("kind") == "TemplateArgument" for c in (m.get("inner") or []))]
-                if pr:
-                    return MTr().mstmt([c for c in kids(pr[0]) if c.get("kind") == "CompoundStmt"][0])
-    raise Untranslatable("%s::parse: no instantiated body found" % cls)
+                cl = [m for m in kids(n) if m.get("kind") == "CXXMethodDecl" and m.get("name") == "clear" and any(c.get("kind") == "CompoundStmt" for c in kids(m))]
+                if pr and cl:
+                    return (MTr().mstmt([c for c in kids(pr[0]) if c.get("kind") == "CompoundStmt"][0]),
+                            MTr().mstmt([c for c in kids(cl[0]) if c.get("kind") == "CompoundStmt"][0]))
+    raise Untranslatable("%s::parse / clear: no instantiated body found" % cls)
 
 
 def translate_headers_valid():
@@ -690,6 +706,487 @@ def translate_headers_valid():
     raise Untranslatable("message_headers::valid")
 
 
+
+class CTr:
+    """rx_chunk::parse(iter, end) -> M_Chunk.cstmt"""
+    NUMS = ["valid_", "cr_", "fail_"]
+
+    def ref(self, n, name):
+        n = strip(n)
+        return n.get("kind") == "DeclRefExpr" and n.get("referencedDecl", {}).get("name") == name
+
+    def this_member(self, n):
+        n = strip(n)
+        if n.get("kind") == "MemberExpr" and kids(n) and strip(kids(n)[0]).get("kind") == "CXXThisExpr":
+            return n.get("name")
+        return None
+
+    def deref_iter(self, n):
+        n = strip(n)
+        return n.get("kind") == "UnaryOperator" and n.get("opcode") == "*" and self.ref(kids(n)[0], "iter")
+
+    def call(self, n):
+        """-> (object, function, args): object is "hdr" (the base class), "trailers" or "data" """
+        n = strip(n)
+        if n.get("kind") != "CXXMemberCallExpr":
+            return None
+        callee = kids(n)[0]
+        if callee.get("kind") != "MemberExpr":
+            return None
+        base = strip(kids(callee)[0])
+        if base.get("kind") == "CXXThisExpr":
+            return "hdr", callee.get("name"), kids(n)[1:]
+        m = self.this_member(base)
+        if m == "trailers_":
+            return "trailers", callee.get("name"), kids(n)[1:]
+        if m == "data_":
+            return "data", callee.get("name"), kids(n)[1:]
+        return None
+
+    def num(self, m):
+        if m in self.NUMS:
+            return self.NUMS.index(m)
+        raise Untranslatable("rx_chunk member " + str(m))
+
+    def is_ptrdiff_cast(self, n):
+        return n.get("kind") == "CXXStaticCastExpr" and "ptrdiff_t" in (n.get("type", {}).get("qualType", ""))
+
+    def zexp(self, n):
+        # static_cast<std::ptrdiff_t>(x) must be seen before strip() removes it
+        while n.get("kind") in ("ImplicitCastExpr", "ParenExpr", "ExprWithCleanups"):
+            n = kids(n)[0]
+        k = n.get("kind")
+        if self.is_ptrdiff_cast(n):
+            c = self.call(kids(n)[0])
+            if c and c[0] == "hdr" and c[1] == "size" and not c[2]:
+                return "CZHdrSize"
+            if c and c[0] == "data" and c[1] == "size" and not c[2]:
+                return "CZDataSize"
+            raise Untranslatable("static_cast<ptrdiff_t> of something else")
+        if k == "IntegerLiteral":
+            return "(CZLit %d)" % int(n["value"])
+        if k == "DeclRefExpr" and n.get("referencedDecl", {}).get("name") == "data_required":
+            return "CZReq"
+        if k == "DeclRefExpr" and n.get("referencedDecl", {}).get("name") == "rx_size":
+            return "CZRx"
+        if k == "BinaryOperator" and n.get("opcode") == "-":
+            a, b = kids(n)
+            return "(CZSub %s %s)" % (self.zexp(a), self.zexp(b))
+        if k == "CallExpr":
+            f = strip(kids(n)[0]); name = f.get("referencedDecl", {}).get("name"); args = kids(n)[1:]
+            if name == "distance" and len(args) == 2 and self.ref(args[0], "iter") and self.ref(args[1], "end"):
+                return "CZDistance"
+        raise Untranslatable("ptrdiff expression in rx_chunk::parse: " + str(k))
+
+    def cexp(self, n):
+        n = strip(n)
+        k = n.get("kind")
+        if k == "CXXBoolLiteralExpr":
+            return "(CConst %s)" % ("true" if n.get("value") else "false")
+        if k == "SubstNonTypeTemplateParmExpr":
+            for m in walk(n):
+                if m.get("kind") == "CXXBoolLiteralExpr":
+                    return "(CConst %s)" % ("true" if m.get("value") else "false")
+            raise Untranslatable("template parameter as a condition")
+        if k == "UnaryOperator" and n.get("opcode") == "!":
+            return "(CNot %s)" % self.cexp(kids(n)[0])
+        if k == "BinaryOperator" and n.get("opcode") in ("&&", "||"):
+            a, b = kids(n)
+            return "(%s %s %s)" % ("CAnd" if n["opcode"] == "&&" else "COr", self.cexp(a), self.cexp(b))
+        if k == "BinaryOperator" and n.get("opcode") in ("==", "!="):
+            a, b = kids(n)
+            neg = n["opcode"] == "!="
+            if (self.ref(a, "iter") and self.ref(b, "end")) or (self.ref(a, "end") and self.ref(b, "iter")):
+                return "(CNot CAtEnd)" if neg else "CAtEnd"
+            for x, y in ((a, b), (b, a)):
+                if strip(x).get("kind") == "CharacterLiteral" and self.deref_iter(y):
+                    e = "(CPeekIs %d)" % int(strip(x)["value"])
+                    return "(CNot %s)" % e if neg else e
+            raise Untranslatable("comparison in rx_chunk::parse")
+        if k == "BinaryOperator" and n.get("opcode") == ">":
+            a, b = kids(n)
+            return "(CZGt %s %s)" % (self.zexp(a), self.zexp(b))
+        c = self.call(n)
+        if c:
+            who, f, args = c
+            is_parse = f == "parse" and len(args) == 2 and self.ref(args[0], "iter") and self.ref(args[1], "end")
+            if who == "hdr" and f == "valid" and not args:
+                return "CHdrValid"
+            if who == "hdr" and f == "is_last" and not args:
+                return "CHdrIsLast"
+            if who == "hdr" and is_parse:
+                return "CHdrParse"
+            if who == "trailers" and is_parse:
+                return "CTrailersParse"
+            raise Untranslatable("call of %s.%s in rx_chunk::parse" % (who, f))
+        m = self.this_member(n)
+        if m is not None:
+            return "(CFlag %d%%nat)" % self.num(m)
+        raise Untranslatable("expression in rx_chunk::parse: " + str(k))
+
+    def seq(self, l):
+        l = [x for x in l if x != "CSkip"]
+        if not l:
+            return "CSkip"
+        out = l[-1]
+        for x in reversed(l[:-1]):
+            out = "(CSeq %s %s)" % (x, out)
+        return out
+
+    def cstmt(self, n):
+        k = n.get("kind")
+        if k == "CompoundStmt":
+            return self.seq([self.cstmt(c) for c in kids(n)])
+        if k == "NullStmt":
+            return "CSkip"
+        if k == "ExprWithCleanups":
+            return self.cstmt(kids(n)[0])
+        if k == "IfStmt":
+            ks = kids(n)
+            els = ks[2] if len(ks) > 2 else None
+            return "(CIf %s %s %s)" % (self.cexp(ks[0]), self.cstmt(ks[1]), self.cstmt(els) if els is not None else "CSkip")
+        if k == "ReturnStmt":
+            return "(CReturn %s)" % self.cexp(kids(n)[0])
+        if k == "DeclStmt":
+            vs = kids(n)
+            if len(vs) == 1 and vs[0].get("kind") == "VarDecl" and kids(vs[0]):
+                name, init = vs[0].get("name"), kids(vs[0])[0]
+                if name == "data_required":
+                    return "(CLetReq %s)" % self.zexp(init)
+                if name == "rx_size":
+                    return "(CLetRx %s)" % self.zexp(init)
+                if name == "next":
+                    i = strip(init)
+                    if i.get("kind") == "BinaryOperator" and i.get("opcode") == "+":
+                        a, b = kids(i)
+                        if self.ref(a, "iter") and self.ref(b, "data_required"):
+                            return "CLetNext"
+            raise Untranslatable("declaration in rx_chunk::parse")
+        if k == "BinaryOperator" and n.get("opcode") == "=":
+            lhs, rhs = kids(n)
+            if self.ref(lhs, "iter") and self.ref(rhs, "next"):
+                return "CJumpNext"
+            if self.ref(lhs, "iter") and self.ref(rhs, "end"):
+                return "CJumpEnd"
+            m = self.this_member(lhs)
+            if m in self.NUMS:
+                return "(CSet %d%%nat %s)" % (self.num(m), self.cexp(rhs))
+            raise Untranslatable("assignment in rx_chunk::parse")
+        if k == "UnaryOperator" and n.get("opcode") == "++" and self.ref(kids(n)[0], "iter"):
+            return "CAdvance"
+        if k == "CXXMemberCallExpr":
+            c = self.call(n)
+            if c and c[1] == "clear" and not c[2]:
+                return {"hdr": "CHdrClear", "data": "CDataClear", "trailers": "CTrailersClear"}[c[0]]
+            if c and c[0] == "data" and c[1] == "insert" and len(c[2]) == 3:
+                pos, a, b = c[2]
+                at_end = any(self.call(m) and self.call(m)[0] == "data" and self.call(m)[1] == "end" for m in walk(pos))
+                if at_end and self.ref(a, "iter") and self.ref(b, "next"):
+                    return "CInsertToNext"
+                if at_end and self.ref(a, "iter") and self.ref(b, "end"):
+                    return "CInsertRest"
+            raise Untranslatable("member call statement in rx_chunk::parse")
+        raise Untranslatable("statement in rx_chunk::parse: " + str(k))
+
+
+def translate_chunk():
+    out = {}
+    for variant, flag in (("lax", "false"), ("strict", "true")):
+        inst = "via::http::rx_chunk<std::string, 100, 65534, 1024, 8, %s>" % flag
+        with tempfile.TemporaryDirectory() as d:
+            tu = os.path.join(d, "tu.cpp")
+            with open(tu, "w") as f:
+                f.write('#include "via/http/chunk.hpp"\n')
+                f.write("template class %s;\n" % inst)
+                f.write("template bool %s::parse<const char*>(const char*&, const char*);\n" % inst)
+            p = subprocess.run(["clang++", "-std=c++17", "-I" + os.path.join(REPO, "include"), "-fsyntax-only",
+                                "-Xclang", "-ast-dump=json", "-Xclang", "-ast-dump-filter=rx_chunk", tu],
+                               stdout=subprocess.PIPE, stderr=subprocess.PIPE, text=True)
+            if p.returncode != 0:
+                raise Untranslatable("clang: " + p.stderr[-400:])
+            docs = load_docs(p.stdout)
+        for dd in docs:
+            for n in walk(dd):
+                if n.get("kind") == "ClassTemplateSpecializationDecl" and n.get("name") == "rx_chunk" and variant not in out:
+                    pr = [m for m in walk(n) if m.get("kind") == "CXXMethodDecl" and m.get("name") == "parse" and any(c.get("kind") == "CompoundStmt" for c in kids(m))
+                          and any(c.get("kind") == "TemplateArgument" for c in (m.get("inner") or []))]
+                    cl = [m for m in kids(n) if m.get("kind") == "CXXMethodDecl" and m.get("name") == "clear" and any(c.get("kind") == "CompoundStmt" for c in kids(m))]
+                    if pr and cl:
+                        out[variant] = CTr().cstmt([c for c in kids(pr[0]) if c.get("kind") == "CompoundStmt"][0])
+                        clr = CTr().cstmt([c for c in kids(cl[0]) if c.get("kind") == "CompoundStmt"][0])
+                        if out.get("clear", clr) != clr:
+                            raise Untranslatable("rx_chunk::clear differs between the instantiations")
+                        out["clear"] = clr
+        if variant not in out:
+            raise Untranslatable("rx_chunk::parse (%s): no instantiated body found" % variant)
+    return out
+
+
+
+class LocalTr(Tr):
+    """a free function whose state is a few local variables (treated like numeric members) and the character *iter"""
+    def member(self, n):
+        n = strip(n)
+        if n.get("kind") == "DeclRefExpr" and n.get("referencedDecl", {}).get("kind") == "VarDecl" and n["referencedDecl"].get("name") in self.cfg["nums"]:
+            return n["referencedDecl"]["name"]
+        return None
+
+    def is_c(self, n):
+        n = strip(n)
+        if n.get("kind") == "UnaryOperator" and n.get("opcode") == "*":
+            m = strip(kids(n)[0])
+            return m.get("kind") == "DeclRefExpr" and m.get("referencedDecl", {}).get("name") == "iter"
+        return False
+
+
+def translate_split():
+    """are_headers_split(headers): two locals, a for loop over the string, a final return.  The frame
+    { char prev(..); char pprev(..); if (!headers.empty()) { auto iter(headers.cbegin()); for (; iter != headers.cend(); ++iter) BODY } return B; }
+    is checked here; BODY is translated into M_Imp.stmt over the store [prev; pprev] and the character *iter."""
+    with tempfile.TemporaryDirectory() as d:
+        tu = os.path.join(d, "tu.cpp")
+        with open(tu, "w") as f:
+            f.write('#include "via/http/headers.hpp"\n')
+        p = subprocess.run(["clang++", "-std=c++17", "-I" + os.path.join(REPO, "include"), "-fsyntax-only",
+                            "-Xclang", "-ast-dump=json", "-Xclang", "-ast-dump-filter=are_headers_split", tu],
+                           stdout=subprocess.PIPE, stderr=subprocess.PIPE, text=True)
+        if p.returncode != 0:
+            raise Untranslatable("clang: " + p.stderr[-400:])
+        docs = load_docs(p.stdout)
+    fn = None
+    for dd in docs:
+        for n in walk(dd):
+            if n.get("kind") == "FunctionDecl" and n.get("name") == "are_headers_split" and any(c.get("kind") == "CompoundStmt" for c in kids(n)):
+                fn = n
+    if fn is None:
+        raise Untranslatable("are_headers_split: no body found")
+    body = [c for c in kids(fn) if c.get("kind") == "CompoundStmt"][0]
+    st = kids(body)
+    cfg = dict(nums=["prev", "pprev"], strs=[], limits=[], state=None, param=None)
+    tr = LocalTr(cfg, {})
+
+    def char_decl(n, name):
+        if n.get("kind") == "DeclStmt" and len(kids(n)) == 1 and kids(n)[0].get("kind") == "VarDecl" and kids(n)[0].get("name") == name:
+            init = strip(kids(kids(n)[0])[0])
+            if init.get("kind") == "CharacterLiteral":
+                return int(init["value"])
+        raise Untranslatable("are_headers_split: declaration of " + name)
+
+    def call_on_headers(n, fname):
+        n = strip(n)
+        while n.get("kind") in ("MaterializeTemporaryExpr", "CXXBindTemporaryExpr", "CXXConstructExpr") and kids(n):
+            n = strip(kids(n)[0])
+        if n.get("kind") == "CXXMemberCallExpr":
+            callee = kids(n)[0]
+            obj = strip(kids(callee)[0])
+            return callee.get("name") == fname and obj.get("kind") == "DeclRefExpr" and obj.get("referencedDecl", {}).get("name") == "headers"
+        return False
+
+    if len(st) != 4:
+        raise Untranslatable("are_headers_split: frame")
+    prev0, pprev0 = char_decl(st[0], "prev"), char_decl(st[1], "pprev")
+    iff = st[2]
+    if iff.get("kind") != "IfStmt" or len(kids(iff)) != 2:
+        raise Untranslatable("are_headers_split: frame (if)")
+    cond = strip(kids(iff)[0])
+    if not (cond.get("kind") == "UnaryOperator" and cond.get("opcode") == "!" and call_on_headers(kids(cond)[0], "empty")):
+        raise Untranslatable("are_headers_split: frame (condition)")
+    inner = kids(kids(iff)[1])
+    if len(inner) != 2 or inner[0].get("kind") != "DeclStmt" or inner[1].get("kind") != "ForStmt":
+        raise Untranslatable("are_headers_split: frame (loop)")
+    itv = kids(inner[0])[0]
+    if itv.get("name") != "iter" or not any(call_on_headers(m, "cbegin") for m in walk(itv)):
+        raise Untranslatable("are_headers_split: frame (iterator)")
+    fparts = [c for c in (inner[1].get("inner") or [])]
+    real = [c for c in fparts if isinstance(c, dict) and c.get("kind")]
+    if len(real) != 3:
+        raise Untranslatable("are_headers_split: frame (for parts)")
+    fcond, finc, fbody = real
+    fc = strip(fcond)
+    ok_cond = fc.get("kind") in ("BinaryOperator", "CXXOperatorCallExpr") and any(call_on_headers(m, "cend") for m in walk(fc)) and \
+        any(m.get("kind") == "DeclRefExpr" and m.get("referencedDecl", {}).get("name") == "iter" for m in walk(fc)) and \
+        (fc.get("opcode") == "!=" or any(m.get("kind") == "DeclRefExpr" and m.get("referencedDecl", {}).get("name") == "operator!=" for m in walk(fc)))
+    fi = strip(finc)
+    ok_inc = (fi.get("kind") == "UnaryOperator" and fi.get("opcode") == "++") or \
+        (fi.get("kind") == "CXXOperatorCallExpr" and any(m.get("kind") == "DeclRefExpr" and m.get("referencedDecl", {}).get("name") == "operator++" for m in walk(fi)))
+    if not (ok_cond and ok_inc):
+        raise Untranslatable("are_headers_split: frame (for header)")
+    ret = st[3]
+    if ret.get("kind") != "ReturnStmt" or strip(kids(ret)[0]).get("kind") != "CXXBoolLiteralExpr":
+        raise Untranslatable("are_headers_split: frame (final return)")
+    final = "true" if strip(kids(ret)[0]).get("value") else "false"
+    return prev0, pprev0, tr.stmt(fbody), final
+
+
+
+# ---- the queries on a received request (which decide closing, 100-continue, the Host check, HEAD/TRACE) ------------------
+LC_NAMES = {"LC_HOST": "hf_LC_HOST", "LC_CONNECTION": "hf_LC_CONNECTION", "LC_TRANSFER_ENCODING": "hf_LC_TRANSFER_ENCODING",
+            "LC_EXPECT": "hf_LC_EXPECT", "LC_CONTENT_LENGTH": "hf_LC_CONTENT_LENGTH"}
+TOKENS = {"IDENTITY": "tok_IDENTITY", "CLOSE": "tok_CLOSE", "CONTINUE": "tok_CONTINUE"}
+METHODS = {"HEAD": "method_HEAD", "TRACE": "method_TRACE", "GET": "method_GET"}
+
+
+def named_refs(n, table):
+    return [table[m["referencedDecl"]["name"]] for m in walk(n)
+            if m.get("kind") == "DeclRefExpr" and m.get("referencedDecl", {}).get("name") in table]
+
+
+def method_bodies(docs, cls, names):
+    out = {}
+    for dd in docs:
+        for n in walk(dd):
+            if n.get("kind") == "ClassTemplateSpecializationDecl" and n.get("name") == cls:
+                for m in kids(n):
+                    if m.get("kind") == "CXXMethodDecl" and m.get("name") in names and m.get("name") not in out:
+                        b = [c for c in kids(m) if c.get("kind") == "CompoundStmt"]
+                        if b:
+                            out[m["name"]] = b[0]
+    missing = [x for x in names if x not in out]
+    if missing:
+        raise Untranslatable("%s: no body for %s" % (cls, ", ".join(missing)))
+    return out
+
+
+def ast_of(header, inst, flt):
+    with tempfile.TemporaryDirectory() as d:
+        tu = os.path.join(d, "tu.cpp")
+        with open(tu, "w") as f:
+            f.write('#include "%s"\n' % header)
+            f.write("template class %s;\n" % inst)
+        p = subprocess.run(["clang++", "-std=c++17", "-I" + os.path.join(REPO, "include"), "-fsyntax-only",
+                            "-Xclang", "-ast-dump=json", "-Xclang", "-ast-dump-filter=" + flt, tu],
+                           stdout=subprocess.PIPE, stderr=subprocess.PIPE, text=True)
+        if p.returncode != 0:
+            raise Untranslatable("clang: " + p.stderr[-400:])
+        return load_docs(p.stdout)
+
+
+def call_name(n):
+    """a member call: (name of the function, object expression)"""
+    n = strip(n)
+    while n.get("kind") in ("MaterializeTemporaryExpr", "CXXBindTemporaryExpr", "CXXConstructExpr") and kids(n):
+        n = strip(kids(n)[0])
+    if n.get("kind") == "CXXMemberCallExpr":
+        callee = kids(n)[0]
+        if callee.get("kind") == "MemberExpr":
+            return callee.get("name"), strip(kids(callee)[0]), kids(n)[1:]
+    return None, None, None
+
+
+def translate_header_queries():
+    """message_headers::is_chunked / close_connection / expect_continue, each of the frame
+       { std::string v(find(NAME)); if (v.empty()) return false; std::transform(.., ::tolower); return (v.find(TOKEN) OP npos); }
+    -> M_Query.HQ name token found  (the result when the token is found)"""
+    docs = ast_of("via/http/headers.hpp", "via::http::message_headers<100, 65534, 1024, 8, false>", "message_headers")
+    bodies = method_bodies(docs, "message_headers", ["is_chunked", "close_connection", "expect_continue"])
+    out = {}
+    for fn, body in bodies.items():
+        st = kids(body)
+        if len(st) != 4 or st[0].get("kind") != "DeclStmt" or st[1].get("kind") != "IfStmt" or st[3].get("kind") != "ReturnStmt":
+            raise Untranslatable("message_headers::%s: frame" % fn)
+        var = kids(st[0])[0]
+        vname = var.get("name")
+        names = named_refs(var, LC_NAMES)
+        fcalls = [call_name(m) for m in walk(var)]
+        if len(names) != 1 or not any(c[0] == "find" and c[1].get("kind") == "CXXThisExpr" for c in fcalls if c[0]):
+            raise Untranslatable("message_headers::%s: the value looked up" % fn)
+        # if (v.empty()) return false;
+        c0, o0, _ = call_name(kids(st[1])[0])
+        r0 = kids(st[1])[1]
+        r0 = kids(r0)[0] if r0.get("kind") == "CompoundStmt" and len(kids(r0)) == 1 else r0
+        if not (c0 == "empty" and o0.get("kind") == "DeclRefExpr" and o0.get("referencedDecl", {}).get("name") == vname and len(kids(st[1])) == 2
+                and r0.get("kind") == "ReturnStmt" and strip(kids(r0)[0]).get("kind") == "CXXBoolLiteralExpr" and not strip(kids(r0)[0]).get("value")):
+            raise Untranslatable("message_headers::%s: the empty case" % fn)
+        # std::transform(v.begin(), v.end(), v.begin(), ::tolower)
+        t = st[2]
+        refs = [m.get("referencedDecl", {}).get("name") for m in walk(t) if m.get("kind") == "DeclRefExpr"]
+        if not ("transform" in refs and "tolower" in refs and vname in refs):
+            raise Untranslatable("message_headers::%s: the lower-casing" % fn)
+        # return (v.find(TOKEN) OP npos)
+        e = strip(kids(st[3])[0])
+        if e.get("kind") != "BinaryOperator" or e.get("opcode") not in ("==", "!="):
+            raise Untranslatable("message_headers::%s: the result" % fn)
+        toks = named_refs(e, TOKENS)
+        fc = [call_name(m) for m in walk(e)]
+        npos = [m for m in walk(e) if m.get("kind") == "DeclRefExpr" and m.get("referencedDecl", {}).get("name") == "npos"]
+        if len(toks) != 1 or not npos or not any(c[0] == "find" and c[1].get("kind") == "DeclRefExpr" and c[1].get("referencedDecl", {}).get("name") == vname for c in fc if c[0]):
+            raise Untranslatable("message_headers::%s: the search" % fn)
+        out[fn] = "(HQ %s %s %s)" % (names[0], toks[0], "true" if e["opcode"] == "!=" else "false")
+    return out
+
+
+class QTr:
+    """rx_request::keep_alive / missing_host_header / expect_continue / is_chunked / is_head / is_trace -> M_Query.rqexp"""
+    def __init__(self, line_tr, hq):
+        self.line_tr, self.hq = line_tr, hq
+
+    def qexp(self, n):
+        n = strip(n)
+        k = n.get("kind")
+        if k == "UnaryOperator" and n.get("opcode") == "!":
+            return "(RQNot %s)" % self.qexp(kids(n)[0])
+        if k == "BinaryOperator" and n.get("opcode") in ("&&", "||"):
+            a, b = kids(n)
+            return "(%s %s %s)" % ("RQAnd" if n["opcode"] == "&&" else "RQOr", self.qexp(a), self.qexp(b))
+        if k == "CXXOperatorCallExpr":
+            ms = named_refs(n, METHODS)
+            calls = [call_name(m) for m in walk(n)]
+            is_eq = any(m.get("kind") == "DeclRefExpr" and m.get("referencedDecl", {}).get("name") == "operator==" for m in walk(n))
+            if is_eq and len(ms) == 1 and any(c[0] == "method" and c[1].get("kind") == "CXXThisExpr" for c in calls if c[0]):
+                return "(RQMethodIs %s)" % ms[0]
+            raise Untranslatable("operator call in a request query")
+        fn, obj, args = call_name(n)
+        if fn:
+            if obj.get("kind") == "CXXThisExpr":
+                # a function of the request line (the base class): an expression over its members
+                return "(RQLine %s)" % self.line_tr.bexp(n)
+            if obj.get("kind") == "MemberExpr" and obj.get("name") == "headers_":
+                if fn in self.hq and not args:
+                    return "(RQHdr %s)" % ("hd_%s_src" % fn)
+            if fn == "empty" and not args:
+                f2, o2, a2 = call_name(obj)
+                if f2 == "find" and o2.get("kind") == "MemberExpr" and o2.get("name") == "headers_":
+                    names = named_refs(obj, LC_NAMES)
+                    if len(names) == 1:
+                        return "(RQFindEmpty %s)" % names[0]
+            raise Untranslatable("call of %s in a request query" % fn)
+        if k == "BinaryOperator" and n.get("opcode") in CMPS:
+            return "(RQLine %s)" % self.line_tr.bexp(n)
+        raise Untranslatable("expression in a request query: " + str(k))
+
+
+def translate_request_queries(hq):
+    docs = ast_of("via/http/request.hpp", "via::http::rx_request<8190, 8, 100, 65534, 1024, 8, false>", "request")
+    cfg = [c for c in CLASSES if c["name"] == "rl"][0]
+    # accessors of the request line that the queries call: translated and inlined
+    lb = method_bodies(docs, "request_line", ["major_version", "minor_version", "is_http_1_0_or_earlier", "method"])
+    tr = Tr(cfg, {})
+    tr.inline = {}
+
+    def single_return(b, what):
+        rs = kids(b)
+        if len(rs) != 1 or rs[0].get("kind") != "ReturnStmt":
+            raise Untranslatable("request_line::%s is not a single return" % what)
+        return kids(rs[0])[0]
+    for an in ("major_version", "minor_version"):
+        tr.inline[an] = tr.nexp(single_return(lb[an], an))
+    early = tr.bexp(single_return(lb["is_http_1_0_or_earlier"], "is_http_1_0_or_earlier"))
+    if tr.member(single_return(lb["method"], "method")) != cfg["strs"][0]:
+        raise Untranslatable("request_line::method() does not return " + cfg["strs"][0])
+
+    class LineTr(Tr):
+        def bexp(self, n):
+            fn, obj, args = call_name(n)
+            if fn == "is_http_1_0_or_earlier" and obj is not None and obj.get("kind") == "CXXThisExpr" and not args:
+                return early
+            return Tr.bexp(self, n)
+    ltr = LineTr(cfg, {})
+    ltr.inline = tr.inline
+    qb = method_bodies(docs, "rx_request", ["keep_alive", "missing_host_header", "expect_continue", "is_chunked", "is_head", "is_trace"])
+    qt = QTr(ltr, hq)
+    return {name: qt.qexp(single_return(b, name)) for name, b in qb.items()}
+
+
 CLASSES = [
     dict(name="rl", cls="request_line", header="via/http/request.hpp", enum="Request", state="state_", param="c",
          strs=["method_", "uri_"], nums=["ws_count_", "major_version_", "minor_version_", "valid_", "fail_"],
@@ -705,7 +1202,7 @@ CLASSES = [
          inst={"lax": "via::http::field_line<1024, 8, false>", "strict": "via::http::field_line<1024, 8, true>"}),
     dict(name="ck", cls="chunk_header", header="via/http/chunk.hpp", enum="Chunk", state="state_", param="c",
          strs=["hex_size_", "extension_"], nums=["length_", "ws_count_", "size_", "size_read_", "max_chunk_size_", "valid_", "fail_"],
-         limits=["MAX_LINE_LENGTH", "MAX_WHITESPACE_CHARS"],
+         limits=["MAX_LINE_LENGTH", "MAX_WHITESPACE_CHARS"], accessors=["valid", "size", "is_last"],
          inst={"lax": "via::http::chunk_header<1024, 8, false>", "strict": "via::http::chunk_header<1024, 8, true>"}),
 ]
 
@@ -772,10 +1269,11 @@ def translate_class(cfg):
                 if len(rs) != 1 or rs[0].get("kind") != "ReturnStmt":
                     raise Untranslatable("%s::%s is not a single return" % (cfg["cls"], an))
                 e = kids(rs[0])[0]
-                if an in ("started", "fail", "valid"):
+                if an in ("started", "fail", "valid", "is_last"):
                     acc[an] = tr0.bexp(e)
-                elif an == "length":
+                elif an in ("length", "size"):
                     acc[an] = tr0.nexp(e)
+                    tr0.inline = dict(getattr(tr0, "inline", {})); tr0.inline[an] = acc[an]
                 else:
                     m = tr0.member(e)
                     if m not in cfg["strs"]:
@@ -789,7 +1287,7 @@ def translate_class(cfg):
 
 def main(dest):
     lines = ["(* Gen_Parse.v — GENERATED by translate/parse.py from the headers under include/via/http: do not edit. *)",
-             "From Via Require Import M_Char M_Parse M_Imp M_Loop M_Hdr M_Msg.", "From Coq Require Import List NArith.", "Import ListNotations.", "Local Open Scope N_scope.", ""]
+             "From Via Require Import M_Char M_Parse M_Imp M_Loop M_Hdr M_Msg M_Chunk M_Query.", "From Coq Require Import List NArith.", "Import ListNotations.", "Local Open Scope N_scope.", ""]
     for cfg in CLASSES:
         enum_index, progs = translate_class(cfg)
         names = sorted(enum_index, key=enum_index.get)
@@ -803,18 +1301,45 @@ def main(dest):
         lines.append("Definition %s_parse_src : lstmt :=\n  %s." % (cfg["name"], progs["parse"]))
         if "acc" in progs:
             a = progs["acc"]
-            kinds = {"started": "bexp", "fail": "bexp", "valid": "bexp", "length": "nexp", "name": "nat", "value": "nat"}
+            kinds = {"started": "bexp", "fail": "bexp", "valid": "bexp", "is_last": "bexp", "length": "nexp", "size": "nexp", "name": "nat", "value": "nat"}
             lines.append("(* %s: %s *)" % (cfg["cls"], ", ".join(x + "()" for x in cfg["accessors"])))
             for an in cfg["accessors"]:
                 lines.append("Definition %s_%s_src : %s := %s." % (cfg["name"], an, kinds[an], a[an]))
         lines.append("")
     lines.append("(* message_headers::parse(iter, end) *)")
-    lines.append("Definition hd_parse_src : hstmt :=\n  %s." % translate_headers())
+    hd_parse_t, hd_clear_t = translate_headers()
+    lines.append("Definition hd_parse_src : hstmt :=\n  %s." % hd_parse_t)
+    lines.append("(* message_headers::clear() *)")
+    lines.append("Definition hd_clear_src : hstmt :=\n  %s." % hd_clear_t)
     lines.append("(* message_headers::valid() *)")
     lines.append("Definition hd_valid_src : hexp := %s." % translate_headers_valid())
     lines.append("(* rx_request::parse(iter, end), rx_response::parse(iter, end) *)")
-    lines.append("Definition rq_parse_src : mstmt :=\n  %s." % translate_message("via/http/request.hpp", "rx_request", "via::http::rx_request<8190, 8, 100, 65534, 1024, 8, false>"))
-    lines.append("Definition rs_parse_src : mstmt :=\n  %s." % translate_message("via/http/response.hpp", "rx_response", "via::http::rx_response<65534, 65534, 100, 65534, 1024, 8, false>"))
+    rq_p, rq_c = translate_message("via/http/request.hpp", "rx_request", "via::http::rx_request<8190, 8, 100, 65534, 1024, 8, false>")
+    rs_p, rs_c = translate_message("via/http/response.hpp", "rx_response", "via::http::rx_response<65534, 65534, 100, 65534, 1024, 8, false>")
+    lines.append("Definition rq_parse_src : mstmt :=\n  %s." % rq_p)
+    lines.append("Definition rs_parse_src : mstmt :=\n  %s." % rs_p)
+    lines.append("(* rx_request::clear(), rx_response::clear() *)")
+    lines.append("Definition rq_clear_src : mstmt :=\n  %s." % rq_c)
+    lines.append("Definition rs_clear_src : mstmt :=\n  %s." % rs_c)
+    p0, pp0, sbody, sfinal = translate_split()
+    lines.append("(* are_headers_split: the store is [prev; pprev], the character is *iter *)")
+    lines.append("Definition split_init_src : list N := [%d; %d]." % (p0, pp0))
+    lines.append("Definition split_body_src : stmt :=\n  %s." % sbody)
+    lines.append("Definition split_final_src : bool := %s." % sfinal)
+    hq = translate_header_queries()
+    lines.append("(* message_headers::is_chunked / close_connection / expect_continue *)")
+    for fn in ("is_chunked", "close_connection", "expect_continue"):
+        lines.append("Definition hd_%s_src : hquery := %s." % (fn, hq[fn]))
+    rq = translate_request_queries(hq)
+    lines.append("(* rx_request::keep_alive / missing_host_header / expect_continue / is_chunked / is_head / is_trace *)")
+    for fn in ("keep_alive", "missing_host_header", "expect_continue", "is_chunked", "is_head", "is_trace"):
+        lines.append("Definition rq_%s_src : rqexp := %s." % (fn, rq[fn]))
+    ch = translate_chunk()
+    lines.append("(* rx_chunk::parse(iter, end) *)")
+    lines.append("Definition rc_parse_src_lax : cstmt :=\n  %s." % ch["lax"])
+    lines.append("Definition rc_parse_src_strict : cstmt :=\n  %s." % ch["strict"])
+    lines.append("(* rx_chunk::clear() *)")
+    lines.append("Definition rc_clear_src : cstmt :=\n  %s." % ch["clear"])
     txt = "\n".join(lines) + "\n"
     # unchanged output keeps its time stamp: make then has nothing to rebuild
     if not os.path.exists(dest) or open(dest).read() != txt:
